@@ -87,3 +87,6 @@ UNITS += _ns_units("C11")
 from contracts.c08 import UNITS as _C08_UNITS  # noqa: E402
 import dataclasses as _dc  # noqa: E402
 UNITS += [_dc.replace(u, prop="C11") for u in _C08_UNITS if u.target.endswith(":recreate_branches")]
+
+from contracts.share import carried as _carried  # noqa: E402
+UNITS += _carried("C11")
